@@ -4,17 +4,28 @@ from vf.common import Harness, REPO
 
 LEVEL = "model_checking"
 TECHNIQUE = ("CBMC bounded symbolic execution of module parsing units on attacker-controlled data inside an exactly-sized object "
-             "(elf.c str_table_entry/is_valid_ptr; pe_utils.c pe_get_header/pe_rva_to_offset on all-symbolic buffers; pe.c pe_parse_exports with pe_utils.c rva translation and directory lookup), object tree as a checking sink, "
+             "(elf.c str_table_entry/is_valid_ptr; pe_utils.c pe_get_header/pe_rva_to_offset on all-symbolic buffers), object tree as a checking sink, "
              "--unwinding-assertions as the termination certificate inside the bound")
 ASSUMPTIONS = [
     "UNIT level only: whole module_load runs on arbitrary buffers are out of reach (DESIGN P9: one 80-byte ELF header parse 397 s / 9.5 GB, 128 bytes out of memory); "
-    "the units are the string-table lookup of the ELF module, the PE header locator and RVA translation, and the export-table parser of the PE module; imports, resources, rich header, version info, .NET, Mach-O, DEX, authenticode (OpenSSL) are NOT covered",
-    "pe_parse_exports: data = 176 bytes; NT-header prefix concrete with NumberOfSections = 0 (RVA == file offset), export directory and everything after it symbolic, RVAs arbitrary 32-bit values, NumberOfFunctions/NumberOfNames <= 2 (3 thorough)",
-    "object tree = sink that checks every string it is handed lies inside the data; strnlen is modelled by the obvious loop",
+    "the units are the string-table lookup of the ELF module and the PE header locator + RVA translation; the PE export-table parser was probed and does not finish (DESIGN 9.7); imports, resources, rich header, version info, .NET, Mach-O, DEX, authenticode (OpenSSL) are NOT covered",
+    "strnlen is modelled by the obvious loop",
     "'releases everything it allocated' is not checked here (the units allocate nothing); leaks are C16",
 ]
-LEVEL_TEXT = "Bounded model checking of two parsing units for every value of the file-controlled fields inside the bound: no access outside the data, loops terminate."
+LEVEL_TEXT = "Bounded model checking of three parsing units for every value of the file-controlled fields inside the bound: no access outside the data, loops terminate."
 LEVEL_NOTE = "; ".join(ASSUMPTIONS)
+
+
+# Probe only (not registered): pe_parse_exports on 176 data bytes (harness c06/pe_exports.c). strnlen as a loop: no verdict
+# (15 GB / 30 min); strnlen as a contract stub and unwind 4: 245 s but an unwinding assertion of the export loops failed;
+# unwind 6: no verdict in 15 min. Kept for a later round.
+PROBE_H2 = """        Harness(name="H2_pe_parse_exports", src="c06/pe_exports.c", includes=inc, defines=["-DVF_K=%d" % K], unwind=K + 4, timeout=900, mem_gb=16,
+                unwind_funcs={"main": 60},
+                desc="pe.c pe_parse_exports on 176 data bytes with a symbolic export directory, symbolic tables and arbitrary RVAs",
+                bounds="176 bytes, <= %d functions / names" % K,
+                functions=["pe_parse_exports", "pe_get_directory_entry", "pe_rva_to_offset", "available_space"],
+                stubs=["yr_object_set_integer: dropped", "yr_object_set_string: asserts the bytes lie inside the data", "strnlen: contract stub (reads both ends of the permitted range, returns any length <= n)"]),
+"""
 
 
 def harnesses(ctx, tier):
@@ -32,10 +43,4 @@ def harnesses(ctx, tier):
         Harness(name="H1_elf_str_table_entry", src="c06/elf_strtab.c", includes=inc, unwind=10, timeout=300,
                 desc="elf.c str_table_entry + is_valid_ptr on an arbitrary (possibly empty / inverted / ending at the end of the data) table window and index",
                 bounds="8-byte object, base/limit anywhere in it, index any int", functions=["str_table_entry", "is_valid_ptr"], stubs=["strnlen: loop model"]),
-        Harness(name="H2_pe_parse_exports", src="c06/pe_exports.c", includes=inc, defines=["-DVF_K=%d" % K], unwind=K + 4, timeout=900, mem_gb=16,
-                unwind_funcs={"main": 60},
-                desc="pe.c pe_parse_exports on 176 data bytes with a symbolic export directory, symbolic tables and arbitrary RVAs",
-                bounds="176 bytes, <= %d functions / names" % K,
-                functions=["pe_parse_exports", "pe_get_directory_entry", "pe_rva_to_offset", "available_space"],
-                stubs=["yr_object_set_integer: dropped", "yr_object_set_string: asserts the bytes lie inside the data", "strnlen: contract stub (reads both ends of the permitted range, returns any length <= n)"]),
     ]
